@@ -29,6 +29,10 @@ pub struct Case {
     pub initial_key: Option<u8>,
     pub ops: Vec<OpKind>,
     pub schedule: Vec<u8>,
+    /// the host refuses the first signed requests it gets with these status codes (a host that no longer accepts the key the
+    /// request was signed with): whatever the clients do about a refusal, id and MAC of everything they send belong together
+    #[serde(default)]
+    pub refusals: Vec<u16>,
 }
 
 pub fn strategy() -> impl Strategy<Value = Case> {
@@ -36,10 +40,10 @@ pub fn strategy() -> impl Strategy<Value = Case> {
         3 => Just(OpKind::GoalState), 2 => Just(OpKind::SharedConfig), 2 => Just(OpKind::Instance), 3 => Just(OpKind::Proxied),
         4 => (0u8..4).prop_map(OpKind::Rotate), 1 => Just(OpKind::Clear),
     ];
-    (prop::option::weighted(0.85, 0u8..4), prop::collection::vec(op, 2..7), prop::collection::vec(any::<u8>(), 0..90)).prop_map(|(initial_key, ops, schedule)| Case { initial_key, ops, schedule })
+    (prop::option::weighted(0.85, 0u8..4), prop::collection::vec(op, 2..7), prop::collection::vec(any::<u8>(), 0..90), prop_oneof![3 => Just(vec![]), 1 => prop::collection::vec(prop::sample::select(vec![401u16, 403, 403, 500, 503, 429]), 1..4)]).prop_map(|(initial_key, ops, schedule, refusals)| Case { initial_key, ops, schedule, refusals })
 }
 
-pub const RULE: &str = "generator: 2-6 operations - signers (WireServerClient::get_goalstate, get_shared_config, ImdsClient::get_imds_instance_info, a client request relayed by the real listener) and key changes (update_key to one of 4 keys, clear_key) - plus a schedule of 0-89 steps; the owned-schedule executor polls one operation once per step with a no-op waker or yields (the only points where the shared-state actor, spawned connection tasks and the I/O driver run), so the interleaving of the signers' reads of the shared key with the key changes is a function of the schedule. oracle at the mock host: every received request that carries an authorization header verifies (independent canonicaliser + HMAC) under the key registered for the key id it announces. non-trivial: a key change was first polled after a signer was first polled and before that signer finished; distinct by hash of (ops, schedule).";
+pub const RULE: &str = "generator: 2-6 operations - signers (WireServerClient::get_goalstate, get_shared_config, ImdsClient::get_imds_instance_info, a client request relayed by the real listener) and key changes (update_key to one of 4 keys, clear_key) - plus a schedule of 0-89 steps; in a quarter of the cases the host refuses the first 1-3 signed requests (401 / 403 / 429 / 5xx); the owned-schedule executor polls one operation once per step with a no-op waker or yields (the only points where the shared-state actor, spawned connection tasks and the I/O driver run), so the interleaving of the signers' reads of the shared key with the key changes is a function of the schedule. oracle at the mock host: every received request that carries an authorization header verifies (independent canonicaliser + HMAC) under the key registered for the key id it announces. non-trivial: a key change was first polled after a signer was first polled and before that signer finished; distinct by hash of (ops, schedule).";
 
 fn key_of(j: u8) -> (String, String) {
     let h = crate::hmacsha::hex_lower(&crate::hmacsha::sha256(format!("c10-key-{}", j % 4).as_bytes()));
@@ -81,7 +85,11 @@ pub fn eval(rig: &KeeperRig, case: &Case, stats: &mut Stats) -> Outcome {
         s.signature_failures.clear();
         s.counters.signed_ok = 0;
         s.doc = None;
+        s.refuse_signed = case.refusals.iter().copied().collect();
     });
+    if !case.refusals.is_empty() {
+        stats.class("host:refuses-the-first-signed-requests(401/403/5xx/429)");
+    }
     let _ = rig.mock.take_requests();
     let rt = tokio::runtime::Builder::new_current_thread().enable_all().build().unwrap();
     let needs_proxy = case.ops.iter().any(|o| *o == OpKind::Proxied);
